@@ -27,7 +27,7 @@ RULE = ("scenario = one send_message call with optional cancellation token (fire
 PROBES = ["token_shared_by_second_request", "params_carried_a_stale_progress_token", "cancel_while_pending", "cancel_before_call", "response_wins_in_cancel_window", "deadline_in_cancel_window",
           "cancel_exactly_on_poll_edge", "flood_during_request", "callback_raised", "callback_slept", "progress_matching_delivered",
           "progress_foreign_delivered", "cancel_after_completion"]
-TIERS = {"quick": {"runs": 25000, "wall": 45.0}, "thorough": {"runs": 1500000, "wall": 560.0}}
+TIERS = {"quick": {"runs": 25000, "wall": 45.0}, "thorough": {"runs": 1200000, "wall": 560.0}}
 ASSUMPTIONS = [
     "a response delivered inside (tc, tc+0.5] after the token fired may legitimately win; a deadline inside that window may legitimately win",
     "when the scenario's progress callback awaits virtual time, notifications queued behind a running callback are in flight: "
